@@ -52,4 +52,25 @@ theorem allRefs_exact (f : Facts) (hf : FactsOK f) (d : J) (hwf : WF d) :
     (Index.refsWhere (fun _ => true) (Analyzer.analyze f d)).Perm ((refKinds d).flatMap fun kp => refsOf kp.2) :=
   IndexProof.refs_all f hf.methods hf.defaultHeaderEnums d hwf.toProof
 
+/-- the `items` view (`AllItemsReferences`: header items and parameter items together) is the union of the two items
+    kinds, with multiplicity — nothing of another kind enters it, and no items `$ref` is left out of it -/
+theorem itemsRefs_exact (f : Facts) (hf : FactsOK f) (d : J) (hwf : WF d) :
+    (Index.refsWhere (fun k => k = "items:header" ∨ k = "items:parameter") (Analyzer.analyze f d)).Perm
+      (refsOf (headerItems d) ++ refsOf (paramItems d)) := by
+  have := IndexProof.refsWhere_perm f hf.methods hf.defaultHeaderEnums d hwf.toProof
+    (fun k => k = "items:header" ∨ k = "items:parameter")
+  simpa [IndexProof.refsSpec] using this
+
+/-- for any insertion log: every entry
+    of the items view is an entry of the `all` view, in the same order and with at least its multiplicity -/
+theorem itemsRefs_sub_all (es : List Analyzer.Ent) :
+    (Index.refsWhere (fun k => k = "items:header" ∨ k = "items:parameter") es).Sublist
+      (Index.refsWhere (fun _ => true) es) := by
+  induction es with
+  | nil => simp [Index.refsWhere]
+  | cons e es ih =>
+    unfold Index.refsWhere at ih ⊢
+    cases e <;> simp only [List.filterMap_cons] <;> try exact ih
+    split <;> simp_all
+
 end C11
